@@ -147,6 +147,34 @@ def project_result(api, r):
     return {"single": -1, "value": to_term(r), "tags": []}
 
 
+class wall_clock:
+    """Raises BudgetExceeded inside the guarded block after `seconds` of wall-clock time (main thread of the process only;
+    elsewhere it is a no-op and the I/O budget is the only guard)."""
+
+    def __init__(self, seconds):
+        self.seconds = seconds
+        self.armed = False
+
+    def _fire(self, signum, frame):
+        raise BudgetExceeded()
+
+    def __enter__(self):
+        import signal
+        import threading
+        if threading.current_thread() is threading.main_thread():
+            self.old = signal.signal(signal.SIGALRM, self._fire)
+            signal.setitimer(signal.ITIMER_REAL, self.seconds)
+            self.armed = True
+        return self
+
+    def __exit__(self, *exc):
+        if self.armed:
+            import signal
+            signal.setitimer(signal.ITIMER_REAL, 0)
+            signal.signal(signal.SIGALRM, self.old)
+        return False
+
+
 STABLE_APIS = ("read", "write", "generic", "_list_identity", "list_identity", "get_module_info", "get_plc_info", "get_plc_name", "get_plc_time")
 
 
@@ -297,7 +325,8 @@ def run_scenario(sc):
             s.ev({"k": "call", "api": c["api"], "intent": c.get("intent", {}), "faulted": 1 if s.fault_fired else 0, "ops": s.sends + s.recvs})
             rec = {"k": "ret", "api": c["api"]}
             try:
-                r = do_call(drv, c)
+                with wall_clock(sc.get("call_seconds", 300)):      # a call that spins without touching the socket never hits the I/O budget
+                    r = do_call(drv, c)
                 rec.update({"outcome": "value", "cls": "", "pycomm": 0, "result": project_result(c["api"], r)})
                 if c["api"] in STABLE_APIS:
                     kept.append((c["api"], r, json.dumps(rec["result"], sort_keys=True)))
